@@ -807,7 +807,7 @@ def show(t, depth=0):
             nm = "%s::%s" % (last_seg(nm), t[3])
         return "%s{%s}" % (last_seg(nm) if nm else "", ", ".join(show(a, depth + 1) for a in t[4]))
     if k == "gamma":
-        return "γ(%s; %s)" % (show(t[1], depth + 1),
+        return "γ(%s | %s)" % (show(t[1], depth + 1),
                                ", ".join("%s→%s" % (l, show(v, depth + 1)) for l, v in t[2]))
     if k == "phi":
         return "φ%s(%s)" % (t[1], ", ".join("bb%s:%s" % (p, show(v, depth + 1)) for p, v in t[2]))
